@@ -32,3 +32,5 @@ func verifHTTPStatus(ctx *fasthttp.RequestCtx) int
 func verifHTTPSets(ctx *fasthttp.RequestCtx) (int, int)
 func verifHTTPResp(ctx *fasthttp.RequestCtx, out any) bool
 func verifPrefer(c bool)
+func verifNative() bool
+func verifRawHTTP(method, path, body string) *fasthttp.RequestCtx
